@@ -7,7 +7,7 @@ stream wire (C15)
 stream hostile (C16)
   in   tn=<tok.tok> G=<pid.pid> S=<pid.pid> msgs=<ti>:<si>:<gi>:<dz>,...   (tokens opaque; dz = oracle
        result of the real payload deserialiser for that message: 1 accepted, 0 rejected, - type index invalid)
-  impl out=<ok|err|panic-reader>;dl=<targetTok>:<typeTok>:<senderTok|nil>,...
+  impl out=<ok|err|panic-reader>;content=<ok|BAD(n)>;dl=<targetTok>:<typeTok>:<senderTok|nil>,...
 -/
 namespace Driver
 open HW.Wire
@@ -128,7 +128,7 @@ def hostileCase (inp impl : String) : CaseOut :=
         | some m => (idx tn m.typeIdx).getD "?"
         | none => "?"
       d.target.address ++ ":" ++ tname ++ ":" ++ (match d.sender with | none => "nil" | some p => p.address)
-    let model := "out=" ++ showOutcome o ++ ";dl=" ++ String.intercalate "," (ds.map showD)
+    let model := "out=" ++ showOutcome o ++ ";content=ok;dl=" ++ String.intercalate "," (ds.map showD)
     -- spec: no panic; the outcome is ok or err; every delivery is justified by valid indices (checked
     -- here directly against the input, independent of `decode`)
     let isPanic := (impl.splitOn "panic").length > 1
@@ -140,7 +140,9 @@ def hostileCase (inp impl : String) : CaseOut :=
         match idx tn m.typeIdx, idx g m.targetIdx with
         | some tname, some target => d.startsWith (target.address ++ ":" ++ tname ++ ":")
         | _, _ => false
+    let badContent := (impl.splitOn ";content=BAD").length > 1
     let spec := if isPanic then "FAIL:panic " ++ impl
+      else if badContent then "FAIL:a target holds a message whose content is not that of any message of this envelope addressed to it (state left over from another message, stream or peer): " ++ impl
       else match implDl.find? (fun d => !justified d) with
         | some d => "FAIL:unaddressed delivery " ++ d
         | none => if implDl.length ≤ msgs.length then "ok" else "FAIL:more deliveries than messages"
